@@ -330,6 +330,20 @@ func Canon(st *model.State) string {
 	return sb.String()
 }
 
+// CanonSpans renders the part of a state inside the given spans (CanonFull
+// format, one bounded combined scan per span).
+func CanonSpans(st *model.State, spans [][2]string) string {
+	var sb strings.Builder
+	for _, sp := range spans {
+		o := model.IterOpts{KeyTypes: model.PointsAndRanges, HasLower: true, Lower: sp[0], HasUpper: true, Upper: sp[1]}
+		for _, p := range model.NewIter(st, o).Scan() {
+			writePos(&sb, p)
+		}
+		sb.WriteString("--\n")
+	}
+	return sb.String()
+}
+
 // CanonFull is Canon without value truncation.
 func CanonFull(st *model.State) string {
 	var sb strings.Builder
@@ -575,6 +589,9 @@ func (r *Run) randSeekKey() string {
 		return r.randKey()
 	}
 }
+
+// RandRange draws a key range.
+func (r *Run) RandRange() (string, string) { return r.randRange() }
 
 func (r *Run) randRange() (string, string) {
 	for {
